@@ -99,17 +99,13 @@ func cmdReplay(args []string) int {
 		_ = os.WriteFile(pf, rp.Plan, 0o644)
 		return cmdExec([]string{"-scenario", rp.Scenario, "-plan", pf, "-trace"})
 	}
-	o, died, ec, se, st := execChild(l, *scratch, rp.Plan, 300*time.Second)
+	o, died, dk, ec, se, st := execChild(l, *scratch, rp.Plan, 600*time.Second)
 	if o.Harness != nil {
 		return fatal2("replay: %s", o.Harness.Msg)
 	}
 	var got *engine.Failure
 	if died {
-		if info.DeathInvariant != nil && st.InCall == 1 {
-			if inv := info.DeathInvariant(ec, se); inv != "" {
-				got = &engine.Failure{Invariant: inv, Step: int(st.Step), Detail: "process died during an in-flight library call: " + firstLines(se, 3)}
-			}
-		}
+		got = deathFailure(info, dk, ec, se, st)
 		if got == nil {
 			return fatal2("replay child died (exit %d) outside an attributable library call:\n%s", ec, tail(se, 3000))
 		}
